@@ -10,6 +10,7 @@ from __future__ import annotations
 
 import ast
 import itertools
+import os
 
 import z3
 
@@ -38,11 +39,13 @@ def B(x):
 
 
 def has_quant(e, _memo={}):
+    """memoised on the AST id; the expression is kept alive in the memo so that ids cannot be recycled"""
     k = e.get_id()
-    if k in _memo:
-        return _memo[k]
+    hit = _memo.get(k)
+    if hit is not None:
+        return hit[0]
     r = z3.is_quantifier(e) or any(has_quant(c) for c in e.children())
-    _memo[k] = r
+    _memo[k] = (r, e)
     return r
 
 
@@ -159,6 +162,8 @@ class Exec(ExprMixin, CallMixin):
                 self.solver.add(g)
         self.solver.add(cond)
         r = self.solver.check()
+        if r == z3.unknown and os.environ.get("PYVC_DEBUG"):
+            print("branch-check unknown:", self.solver.reason_unknown(), str(cond)[:100])
         self.solver.pop()
         return r
 
